@@ -48,6 +48,7 @@ def run_native(path, command, verbose, style='auto', options=None, use_main=Fals
 class TallySpec(Spec):
     prop = 'C10'
     title = 'modules of doctests with by-construction outcomes through the native runner'
+    batch = 2
 
     def __init__(self, name, max_len, min_len=1):
         self.name = name
